@@ -61,6 +61,25 @@ func suiteBlob(e *vh.Env) {
 			e.Sample(map[string]interface{}{"size": n, "inlined": hdr.Get("X-Inlined"), "parts": hdr.Get("X-Parts")})
 		}
 	}
+	blobFreshSurvivesCleanup(e, len(sizes))
+}
+
+// blobFreshSurvivesCleanup: the clean-up job deletes what is older than two minutes; a response stored just now (for
+// a request started just now) is not, whatever its size - the waiting client still has to read it.
+func blobFreshSurvivesCleanup(e *vh.Env, base int) {
+	L := store.VerifFieldByteLimit
+	for k, n := range []int{10, L - 1, L + 1, 2*L + 7} {
+		if !e.Want(base + k) {
+			continue
+		}
+		data := e.Rng.Sub(base + k).Bytes(n)
+		st, _, back := verifCall("respcron", "POST", "/respcron", http.Header{hdrVerifReqID: {fmt.Sprintf("cron-%d-%d", e.Seed, k)}}, data)
+		if st != 200 || !bytes.Equal(back, data) {
+			e.Fail("C19:fresh-response-deleted-by-cleanup", fmt.Sprintf("a response of %d bytes was stored for a request that started just now; after one run of the clean-up job (which is to delete data older than two minutes) reading it back gave status %d, %d bytes: %s", n, st, len(back), truncBytes(back, 120)), base+k, nil, st, 200)
+		}
+		e.Eval(fmt.Sprintf("cleanup-%d", n), true)
+		e.Count("fresh-response-vs-cleanup")
+	}
 }
 
 func firstDiff(a, b []byte) int {
